@@ -117,6 +117,10 @@ def roles(p):
     find = [fi for fi in cand if trans(fi, lambda f_: calls_attr(f_, "from_string") or calls_attr(f_, "from_xml"))]
     find = [fi for fi in find if not any(byname[c] in find for c in closure(fi))] or find
     tagged = [fi for fi in cand if stores_data(fi) and trans(fi, lambda f_: mentions_self(f_, "allowed_tags"))]
+    if not tagged:
+        # the tag list may have been digested by the constructor (a compiled pattern, a set of openers): the
+        # resynchroniser is then the innermost helper that truncates the buffer without being the scan
+        tagged = [fi for fi in cand if stores_data(fi) and fi not in find]
     # innermost: does not call another candidate of the same kind
     resync = [fi for fi in tagged if not any(byname[c] in tagged for c in closure(fi))]
     if len(find) != 1 or len(resync) != 1:
@@ -532,6 +536,8 @@ def stringio_model(it, callee, args, kw):
 
 CAT_TAGS = ["getProperties", "oneLight", "setLightVector"]
 CAT_PIECES = ["x", "<", ">", "<foo", "<getProperties", "<oneLight", "<setLightVector", " a='1'>", "</foo>"]
+# a known start tag followed by every character that may legally follow a tag name, with an end tag behind it
+CAT_LAYOUTS = [pre + "<" + t + sep + "a='1'>v</" + t + ">" for t in ["getProperties", "oneLight", "setLightVector"] for sep in (" ", "\n", "\t", "\r\n", "\n  ") for pre in ("", "x")] + ["<" + t + tail for t in ["getProperties", "setLightVector"] for tail in ("/>", ">", "></" + t + ">")]
 # every proper prefix of every known start tag, alone and behind junk: a message whose opening tag is cut anywhere by the
 # transport must be kept whole (the rest arrives with the next read)
 CAT_PARTIALS = [pre + ("<" + t)[:k] for t in ["getProperties", "oneLight", "setLightVector"] for k in range(1, len(t) + 1) for pre in ("", "x", "x>", "<foo a='1'>")]
@@ -613,6 +619,7 @@ def resync_catalogue(ctx, f, depth=3):
     for k in range(1, depth + 1):
         inputs.extend("".join(c) for c in _it.product(CAT_PIECES, repeat=k))
     inputs.extend(CAT_PARTIALS)
+    inputs.extend(CAT_LAYOUTS)
     mism = []
     n = 0
     for s_ in inputs:
@@ -1096,6 +1103,10 @@ FIND_CASES = [
     '<getProperties/><setLightVec',
     '<getProperties/>x',
     '<oneLight name="a">"</oneLight><oneLight name="b">"</oneLight>',
+    # text outside ASCII, as the transports hand it over (bytes decoded as latin1) and as a program may feed it
+    '<getProperties device="caf\xe9"/>',
+    '<setLightVector device="d" name="n"><oneLight name="a">5\xb0 \xc3\xa9</oneLight></setLightVector>',
+    '<getProperties device="\u03a9"/><getProperties/>',
 ]
 
 
@@ -1151,7 +1162,9 @@ def check_find(ctx, rule):
             o = constructed_buffer(it, p, s_)
             return it.run_function(Fn(f, o), [], {})
 
-        paths = explore(p, run, {"inline": lambda fi, node: fi.cls is Bc, "foreign_model": _et_model, "max_while": 40, "max_for": 12, "max_steps": 200000})
+        # the message parser's entry (from_string) is part of the scan: what it hands to from_xml must be the element parsed
+        # from exactly the prefix text
+        paths = explore(p, run, {"inline": lambda fi, node: fi.cls is Bc or (fi.name == "from_string" and fi.module.name.startswith("indi.message")), "foreign_model": _et_model, "max_while": 40, "max_for": 12, "max_steps": 200000})
         ctx.paths_enumerated += len(paths)
         want = find_oracle(s_)
         if len(paths) != 1:
@@ -1168,8 +1181,8 @@ def check_find(ctx, rule):
             got_pfx = px.v if isinstance(px, Const) else (None if isinstance(m, Const) and m.v is None else "?")
         exp_end, exp_pfx = (want, s_[:want]) if want is not None else (None, None)
         if (got_end, got_pfx) != (exp_end, exp_pfx):
-            what = f"delivers {got_pfx!r} (end {got_end})" if got_pfx not in (None, "?") else (f"reports nothing complete (end {got_end})" if pa.outcome == "return" else f"raises {show(pa.value)[:40] if pa.value is not None else ''}")
-            ctx.violated(rule, f.short, f"on the buffer {s_!r} the scan {what}; the first complete element is {exp_pfx!r}" + (": a complete message is passed over and stays undelivered (and blocks what follows it)" if exp_pfx is not None and got_pfx != exp_pfx else ""), fi=f, text="find:" + ("missed" if exp_pfx is not None else "spurious"), witness=s_)
+            what = (f"parses a re-encoded copy {got_pfx!r} of the text instead of the text itself (characters outside ASCII are lost, altered or make a valid message unparsable)" if isinstance(got_pfx, bytes) else f"delivers {got_pfx!r} (end {got_end})") if got_pfx not in (None, "?") else (f"reports nothing complete (end {got_end})" if pa.outcome == "return" else f"raises {show(pa.value)[:40] if pa.value is not None else ''}")
+            ctx.violated(rule, f.short, f"on the buffer {s_!r} the scan {what}; the first complete element is {exp_pfx!r}" + (": a complete message is passed over and stays undelivered (and blocks what follows it)" if exp_pfx is not None and got_pfx != exp_pfx and not isinstance(got_pfx, bytes) else ""), fi=f, text="find:" + ("missed" if exp_pfx is not None else "spurious"), witness=s_)
             bad = True
     ctx.counters[rule + ":constant buffers scanned"] = n
     if not bad:
